@@ -1,6 +1,7 @@
 /- C09 — property theorems (part B: redirects; part A: admission). -/
 import TornadoModel.C09.Lemmas
 import TornadoModel.C09.Admission
+import TornadoModel.C09.Active
 namespace TornadoModel.C09
 open TornadoModel.C06
 
@@ -195,12 +196,100 @@ example : starts (run (init 1) [.fetch 0 50, .fetch 1 2, .fetch 2 60, .advance 5
 example : (run (init 1) [.fetch 0 50, .fetch 1 2, .fetch 2 60, .advance 5, .connFail 0]).1.active = [2] := by decide
 example : completions (run (init 1) [.fetch 0 50, .fetch 1 2, .fetch 2 60, .advance 5, .connFail 0]).2 = [1, 0] := by decide
 
-/-- stretch (tie only): every submitted key leaves the system through exactly one completion. -/
-def complete_exactly_once_goal : Prop :=
-  ∀ (mx : Nat) (ops : List Op), (submitted ops).Nodup → 0 < mx →
-    (∀ k T, Op.fetch k T ∈ ops → 0 < T) →
-    let evs := (run (init mx) (ops ++ [.advance 1000000000])).2
-    (completions evs).Nodup
+/-- **admission_conservation** (the partition invariant): at every moment of every run with distinct keys, the fetches
+    completed so far together with the roots (the fetch a key ultimately belongs to, through redirects) of the keys
+    still waiting in the queue or in `active` are a permutation of the fetched keys — every fetch is in exactly one
+    of {completed, waiting, active}, exactly once; and no key is both waiting and active or listed twice. -/
+theorem admission_conservation (mx : Nat) (ops : List Op) (hn : (submitted ops).Nodup) :
+    (completions (run (init mx) ops).2 ++
+      ((run (init mx) ops).1.waiting.map (·.1) ++ (run (init mx) ops).1.active).map
+        (run (init mx) ops).1.root).Perm (fetchedOf ops) ∧
+    (fetchedOf ops).Nodup ∧ ((run (init mx) ops).1.waiting.map (·.1) ++ (run (init mx) ops).1.active).Nodup := by
+  have h := run_init_inv mx ops hn
+  have hA : (run (init mx) ops).1.active = (run (init mx) ops).1.conns.map (·.key) := run_init_AC mx ops hn
+  rw [hA]
+  refine ⟨?_, h.fnodup, h.live_nodup⟩
+  have hr : (live (run (init mx) ops).1).map (run (init mx) ops).1.root =
+      (live (run (init mx) ops).1).map (rootL (run (init mx) ops).1.parent) :=
+    List.map_congr_left (fun k _ => root_eq_rootL _ h.wfp k)
+  have hp := h.perm
+  rw [← hr] at hp
+  exact hp
+
+/-- `active` is exactly the list of keys that own an open connection (so `_release` always finds its key) -/
+theorem active_eq_conns (mx : Nat) (ops : List Op) (hn : (submitted ops).Nodup) :
+    (run (init mx) ops).1.active = (run (init mx) ops).1.conns.map (·.key) := run_init_AC mx ops hn
+
+/-- no fetch completes twice, at any point of any run -/
+theorem completions_nodup (mx : Nat) (ops : List Op) (hn : (submitted ops).Nodup) :
+    (completions (run (init mx) ops).2).Nodup := (run_init_inv mx ops hn).done_nodup
+
+/-- **complete_exactly_once** (the former stretch goal, statement unchanged): with distinct keys no fetch is completed
+    twice — by a queue timeout *and* a connection callback, or by two connection callbacks. -/
+theorem complete_exactly_once :
+    ∀ (mx : Nat) (ops : List Op), (submitted ops).Nodup → 0 < mx →
+      (∀ k T, Op.fetch k T ∈ ops → 0 < T) →
+      let evs := (run (init mx) (ops ++ [.advance 1000000000])).2
+      (completions evs).Nodup := by
+  intro mx ops hn _ _
+  refine completions_nodup mx _ ?_
+  rw [submitted_append]
+  simpa [submitted] using hn
+
+/-- **every_fetch_completes_once**: if every timeout is positive and at most `B`, then after a final `advance` of at
+    least `B` per fetch nothing is waiting or connected any more and the completions are a permutation of the fetched
+    keys: every fetch completed, exactly once (queue timeout, connect/request timeout, connection failure or response
+    — of the request itself or of the last redirect target). -/
+theorem every_fetch_completes_once (mx B dt : Nat) (ops : List Op) (hn : (submitted ops).Nodup)
+    (hT : ∀ k T, Op.fetch k T ∈ ops → 0 < T ∧ T ≤ B) (hdt : (fetchedOf ops).length * B ≤ dt) :
+    (completions (run (init mx) (ops ++ [.advance dt])).2).Perm (fetchedOf ops) ∧ (fetchedOf ops).Nodup ∧
+      (run (init mx) (ops ++ [.advance dt])).1.waiting = [] ∧ (run (init mx) (ops ++ [.advance dt])).1.conns = [] := by
+  have hn' : (submitted (ops ++ [.advance dt])).Nodup := by
+    rw [submitted_append]; simpa [submitted] using hn
+  have h := run_init_inv mx (ops ++ [.advance dt]) hn'
+  have hd := drained mx B dt ops hn hT hdt
+  have hp := h.perm
+  rw [hd, fetchedOf_append] at hp
+  have hf : fetchedOf [Op.advance dt] = [] := rfl
+  rw [hf] at hp
+  simp only [List.map_nil, List.append_nil] at hp
+  have hnd := h.fnodup
+  rw [fetchedOf_append, hf, List.append_nil] at hnd
+  simp only [live, List.append_eq_nil_iff, List.map_eq_nil_iff] at hd
+  exact ⟨hp, hnd, hd.1, hd.2⟩
+
+/-- the executable oracle applied to the implementation's traces accepts exactly this situation -/
+theorem onceOk_of_perm (roots comps : List Nat) (hn : roots.Nodup) (hp : comps.Perm roots) :
+    Spec.onceOk roots comps = true := by
+  simp only [Spec.onceOk, Bool.and_eq_true, List.all_eq_true, decide_eq_true_eq, List.contains_iff_mem]
+  constructor
+  · intro r hr
+    rw [hp.count_eq r, hn.count, if_pos hr]
+  · intro c hc
+    exact hp.mem_iff.1 hc
+
+/-- the model passes the oracle `Spec.onceOk` that the harness applies to the real client -/
+theorem every_fetch_onceOk (mx B dt : Nat) (ops : List Op) (hn : (submitted ops).Nodup)
+    (hT : ∀ k T, Op.fetch k T ∈ ops → 0 < T ∧ T ≤ B) (hdt : (fetchedOf ops).length * B ≤ dt) :
+    Spec.onceOk (fetchedOf ops) (completions (run (init mx) (ops ++ [.advance dt])).2) = true :=
+  have h := every_fetch_completes_once mx B dt ops hn hT hdt
+  onceOk_of_perm _ _ h.2.1 h.1
+
+/-- non-vacuity: max_clients = 1; fetch 0 is redirected to key 3 (which has to queue behind fetch 1 and times out
+    there), fetch 1 fails to connect, fetch 2 times out in the queue: hypotheses hold with B = 60, and the three
+    fetches 0, 1, 2 each complete once. -/
+def exOps : List Op :=
+  [.fetch 0 50, .fetch 1 40, .fetch 2 3, .connOk 0, .advance 5, .redirect 0 3, .connFail 1]
+example : (submitted exOps).Nodup ∧ (∀ k T, Op.fetch k T ∈ exOps → 0 < T ∧ T ≤ 60) ∧
+    (fetchedOf exOps).length * 60 ≤ 180 := by
+  refine ⟨by decide, ?_, by decide⟩
+  intro k T h
+  simp only [exOps, List.mem_cons, Op.fetch.injEq, List.mem_nil_iff, reduceCtorEq, or_false] at h
+  omega
+example : completions (run (init 1) (exOps ++ [.advance 180])).2 = [2, 1, 0] ∧ fetchedOf exOps = [0, 1, 2] := by decide
+/-- … and in the middle of that run: fetch 2 timed out, key 1 is active, key 3 (root 0) waits -/
+example : completions (run (init 1) (exOps.take 6)).2 = [2] ∧ (run (init 1) (exOps.take 6)).1.active = [1] ∧
+    (run (init 1) (exOps.take 6)).1.waiting.map (·.1) = [3] ∧ (run (init 1) (exOps.take 6)).1.root 3 = 0 := by decide
 
 /-- non-vacuity for the redirect theorems: a POST with a two-valued Cookie and an Authorization header, redirected by a
     303 to another host: followed, becomes GET, and nothing credential-like survives. -/
